@@ -20,7 +20,7 @@ ANCHORS = ["decaylanguage.decay.decay:DecayChain.to_string", "decaylanguage.deca
            "decaylanguage.utils.utilities:DescriptorFormat.format_descriptor"]
 WORKERS = {"quick": 4, "thorough": 16}
 WTESTS = {"groups": ['to_string'], "tests": ['tests/decay', 'tests/utils']}
-REQUIRED = {"depth>=3": 50, "name-with-paren": 50, "name-with-quote-or-sign": 50, "repeated-subdecay": 50, "orders-compared": 500,
+REQUIRED = {"depth>=3": 50, "name-with-paren": 50, "name-with-quote-or-sign": 50, "repeated-subdecay": 50, "orders-compared": 500, "queried-before-to_string": 50, "rendered-before-inside-after-block": 50,
             **{f"pattern-pair-{i}": 20 for i in range(8)}, "C13.to_string.reads_back": 500}
 EXHAUSTIVE_NOTE = "tree shapes <= 5 (quick) / 6 (thorough) decaying particles enumerated with multiplicities 1..2; all daughter orders for small chains"
 ASSUMPTIONS = ["names contain no blanks and have balanced parentheses (all real particle names do)", "brackets of the pattern family do not occur in names"]
@@ -93,11 +93,23 @@ def check_case(ctx, case, workload):
         if not ok:
             return
 
-        def render():
+        def render(dc=dc, first=(len(strings) == 0)):
+            if first and rng.random() < 0.4:
+                # other read-only queries on the same object first
+                ctx.hit("queried-before-to_string")
+                _ = dc.visible_bf, dc.to_dict(), dc.flatten()
             if pi == 0:
                 return dc.to_string()
+            before = dc.to_string() if first else None
             with DescriptorFormat(p1, p2):
-                return dc.to_string()
+                inside = dc.to_string()
+            if first:
+                # the same object rendered again after the block: the default patterns are back at every level
+                after = dc.to_string()
+                ctx.hit("rendered-before-inside-after-block")
+                if after != before:
+                    ctx.violate("descriptor:differs-after-format-block", f"before the block {before!r}, after it {after!r}", wit)
+            return inside
 
         ok, s = ctx.guard("descriptor:to_string", {**wit, "order": o}, render)
         for v in contracts.drain():
